@@ -231,19 +231,21 @@ def build_cases(rng, tier, enc, n_random):
         ft = finalize(rng, t, lay, enc)
         if ft is None:
             continue
-        out.append((kind, ft, lay))
+        out.append((kind, ft, lay, X.depth_of(t)))
     return out
 
 
 def run_cases(rng, cases):
     """-> list of dicts with text, tokens, observation"""
     jobs, recs = [], []
-    for kind, tree, lay in cases:
+    for case in cases:
+        kind, tree, lay = case[:3]
         toks = X.print_min(tree)
         text = X.render(toks, rng)
         src = program(lay, text)
         jobs.append((([("t.mac", src)],), {}))
-        recs.append({"kind": kind, "tree": tree, "lay": lay, "tokens": toks, "text": text, "src": src})
+        recs.append({"kind": kind, "tree": tree, "lay": lay, "tokens": toks, "text": text, "src": src,
+                     "depth": case[3] if len(case) > 3 else X.depth_of(tree)})
     outs = impl.pmap("assemble", jobs, chunksize=64)
     for r, o in zip(recs, outs):
         r["obs"] = observe(r["lay"], o)
@@ -292,7 +294,7 @@ def explore(rep, br, tier, seed):
         rep.count("kind:" + r["kind"])
         rep.count("outcome:" + r["obs"][0])
         if r["kind"] == "random":
-            rep.count("depth:%d" % X.depth_of(r["tree"]))
+            rep.count("depth:%d" % r["depth"])
         k = nontrivial_key(r)
         if k is not None:
             rep.nontrivial(k)
